@@ -9,6 +9,8 @@ import (
 	"os/exec"
 	"path/filepath"
 	"sync"
+	"sync/atomic"
+	"time"
 )
 
 // buildInproc builds the in-process batch worker against the tree under test.
@@ -51,7 +53,11 @@ type inprocReply struct {
 	Err   string `json:"err,omitempty"`
 	Panic string `json:"panic,omitempty"`
 	Died  bool   `json:"died,omitempty"`
+	Hung  bool   `json:"hung,omitempty"` // no reply within the watchdog period: the worker was killed
 }
+
+// inprocWatchdog is how long one request may take before the worker counts as hung.
+const inprocWatchdog = 20 * time.Second
 
 // inprocWorker is one subprocess; calls are serialised per worker.
 type inprocWorker struct {
@@ -104,10 +110,15 @@ func (w *inprocWorker) runMode(root, text, mode string) (inprocReply, error) {
 		w.stop()
 		return inprocReply{ID: w.next, Died: true}, nil
 	}
+	// watchdog: code under test that loops forever must not hang the harness
+	proc := w.cmd.Process
+	var hung int32
+	timer := time.AfterFunc(inprocWatchdog, func() { atomic.StoreInt32(&hung, 1); proc.Kill() })
 	line, err := w.out.ReadBytes('\n')
+	timer.Stop()
 	if err != nil {
 		w.stop()
-		return inprocReply{ID: w.next, Died: true}, nil
+		return inprocReply{ID: w.next, Died: true, Hung: atomic.LoadInt32(&hung) == 1}, nil
 	}
 	var r inprocReply
 	if err := json.Unmarshal(line, &r); err != nil || r.ID != w.next {
